@@ -381,7 +381,7 @@ class Origin:
         return '%s:%s' % (self.kind, self.extra)
 
 
-def origins(body, op, transparent=is_transparent, max_nodes=4000, stop_at=None):
+def origins(body, op, transparent=is_transparent, max_nodes=4000, stop_at=None, visited=None):
     """Backward slice of an operand (flow-insensitive over the definitions of each local).
     Returns the list of Origins: calls that are not transparent, parameters, constants.
     Field paths read on the way are accumulated in Origin.path (innermost first).
@@ -406,11 +406,13 @@ def origins(body, op, transparent=is_transparent, max_nodes=4000, stop_at=None):
             continue
         pl = o['place']
         l = pl['l']
-        fpath = tuple(p['name'] for p in pl['p'] if p['k'] == 'field') + path
+        fpath = (tuple(p['name'] for p in pl['p'] if p['k'] == 'field') + path)[:8]
         key = (l, fpath)
         if key in seen:
             continue
         seen.add(key)
+        if visited is not None:
+            visited.add(l)
         if 1 <= l <= body.arg_count:
             out.append(Origin('param', param=l, path=fpath))
             # parameters may also be re-assigned; fall through to defs too
